@@ -41,6 +41,10 @@ RULE = ("programs as in C01 whose bodies also attach details under names from {t
 TRUSTED = ["the recording subclass of doubles.ExtendedTestResult reads each content's bytes when the outcome call "
            "arrives", "fixtures.Fixture getDetails/setUp/cleanUp (fixtures 4.3.2) is modelled, not verified"]
 ASSUMPTIONS = ["the result object and addOnException handlers do not raise",
+               "configured RunTest factories: the Gallina input has no configuration; 300 (quick) / 8000 (thorough) cases run "
+               "on a test case with a factory of its own (run_tests_with / runTest= / "
+               "@run_test_with x subclasses, functions, partial, callable objects, factories of the API before last_resort) and are judged as the same program under "
+               "the default RunTest (C05_factory_irrelevant)",
                "the detail name 'reason' is not used by tests, mismatches or fixtures",
                "contents are binary (application/octet-stream), so no decoding is involved at the result",
                "fixtures raise single exceptions; new-style _setUp and fixture cleanups raise Exception-derived ones"]
@@ -80,7 +84,7 @@ def peek_programs():
 
 
 def drive(case):
-    o = R.run_program(case["prog"], "FExtended")[0]
+    o = R.run_program(case["prog"], "FExtended", runner=case.get("runner"))[0]
     tr = o["trace"]
     outs = [k for k, e in enumerate(tr) if e[0] == "out"]
     first = outs[0] if outs else len(tr)
@@ -163,12 +167,13 @@ def generate(rng, tier):
         feats = FEATS if k % 4 else frozenset(["details", "cells"])
         p = R.rand_prog(rng, feats=feats, depth=rng.choice([1, 2, 3]), p_raise=rng.choice([0.3, 0.5, 0.8]))
         cases.append({"prog": p})
+    # the same programs on cases configured with a RunTest factory of their own (the Gallina input leaves it out)
+    cases += R.configured(cases, rng, 300 if tier == "quick" else 8000)
     return cases
 
 
 def shrink(case):
-    for p in R.shrink_prog(case["prog"]):
-        yield {"prog": p}
+    return R.shrink_configured(case, ({"prog": p} for p in R.shrink_prog(case["prog"])))
 
 
 def distribution(cases):
@@ -177,4 +182,5 @@ def distribution(cases):
     for c in cases:
         k = min(len(_detail_acts(c["prog"])), 6)
         d["detail_statements"][k] = d["detail_statements"].get(k, 0) + 1
+    d["runtest_factory"] = R.runner_distribution(cases)
     return d
